@@ -78,10 +78,10 @@ type c19Ev struct {
 type c19Res struct {
 	Setup      string       `json:"setup"`
 	Panic      string       `json:"panic"`
-	Stale      int          `json:"stale"`     // goroutines with monitor.go frames left over from earlier scenarios of this process
-	Watches    int          `json:"watches"`   // inotify watches of the instance created by DetectDeviceConfigChanges when the script began
-	Steps      []c19StepRec `json:"steps"`     // executed steps only
-	Notes      []int64      `json:"notes"`     // receive times
+	Stale      int          `json:"stale"`   // goroutines with monitor.go frames left over from earlier scenarios of this process
+	Watches    int          `json:"watches"` // inotify watches of the instance created by DetectDeviceConfigChanges when the script began
+	Steps      []c19StepRec `json:"steps"`   // executed steps only
+	Notes      []int64      `json:"notes"`   // receive times
 	ReadUntil  int64        `json:"read_until"`
 	Reading    bool         `json:"reading_at_cancel"`
 	Cancel     int64        `json:"cancel"`
@@ -355,8 +355,8 @@ func c19Run(sc *c19Scen, home string) (res c19Res) {
 	// consumer
 	var (
 		noteMu       sync.Mutex
-		stopRead     = make(chan struct{})
-		consumerDone = make(chan struct{})
+		stopRead           = make(chan struct{})
+		consumerDone       = make(chan struct{})
 		closedAt     int64 = -1
 		stopped      bool
 	)
